@@ -17,6 +17,8 @@ import (
 // agree in their first 7, 8, 9 or more bytes, see c07LongFamilies in b8_helpers.go), nested up to depth 3, every leaf a
 // different number so that a sequence shows its order. Paths: 1..4 steps over wildcard,
 // filter, recursive descent, multi-name and union steps (at least one of the first three).
+// A fifth of the multi-name selectors are LONG: 8..40 quoted names (LongNames in b9_scale.go) — more names than
+// the object has members, the names it has written in a random order and some of them twice, the rest absent.
 // Every document is built 3..5 times as equal maps filled in other orders / sizes, the path
 // is evaluated 6..10 times over these copies (one parsed function and fresh Retrieves
 // alternating), interleaved with evaluations on unrelated maps that recycle the pooled key
@@ -221,6 +223,9 @@ func (g *c07Gen) namesFor(node interface{}) []Name {
 	var ks []string
 	if isMap {
 		ks = sortedKeys(m)
+	}
+	if r.Chance(20) {
+		return LongNames(r, m, r.Range(8, 40), c07Keys, 6)
 	}
 	if r.Chance(12) {
 		for i := range names {
@@ -828,6 +833,12 @@ func (c07) Exec(seed int64, i int, tier string) Record {
 	}
 	rec := Record{Text: text, Doc: JSONText(doc), Tags: stepTags(p)}
 	rec.Info = map[string]interface{}{"accessor": acc, "jnum": jn}
+	if n := scaleMaxNames(p); n >= 8 {
+		rec.Tags = append(rec.Tags, "multi:long-list")
+		if n >= 16 {
+			rec.Tags = append(rec.Tags, "multi:16+names")
+		}
+	}
 	if len(shared) > 0 {
 		if c07SharedPlaces(doc) < 2 {
 			rec.Viol = "harness error: the document shares no container"
